@@ -1,8 +1,9 @@
 // C14 (framing, engine I): exhaustive input sweeps over the three real JSON-RPC framings
 // (RawStreamProto, HeaderStreamProto, PacketProto), ASan+UBSan.
-//   usage: frame_harness <family> <part> <nparts> <level> [maxseg]
-//   family: roundtrip | segment | packet | len | magic | trunc | bytes | mixed | envelope | deep
+//   usage: frame_harness <family> <part> <nparts> <level> [maxseg] [log]
+//   family: roundtrip | segment | packet | len | magic | trunc | bytes | mixed | envelope | deep | big
 //   level : 0 = quick bounds, 1 = thorough bounds
+//   log   : 1 = every proto runs with setLogEnable(true) + setLogLabel (records are formatted by log_fmt_stub.cpp, written nowhere)
 // Every batch of cases runs in a forked child; the case in flight is published in shared memory, so
 // a crash / sanitizer abort of the child identifies its input (and the batch resumes behind it).
 // Exceptions escaping onRecvData are caught per call and reported as violations.
@@ -15,6 +16,7 @@
 #include <sys/syscall.h>
 #include <sys/wait.h>
 #include <unistd.h>
+#include <climits>
 #include <cstdarg>
 #include <cstdio>
 #include <cstdlib>
@@ -38,13 +40,15 @@ struct Shared {
   char cls[200];                // signature prefix of the case in flight
   char text[24000];             // replay text of the case in flight
   volatile long cut[4];         // segmentation of the case in flight (-1 = unused)
-  long states, executions, calls, callbacks, viols, status_diffs;
+  long states, executions, calls, callbacks, viols, status_diffs, log_records;
   int nsig; SigRec sigs[96];
   int nout; char outs[160][200];
   int nsample; char samples[4][1200];
 };
 static Shared *S;
 static int g_part = 0, g_nparts = 1, g_level = 0, g_maxseg = 0;   // g_maxseg: 0 = full bound of the level, 2 = only 2-segment splits
+static int g_log = 0;                                             // protos log every frame they send / receive
+extern long g_c14_log_records, g_c14_log_bytes;                   // log_fmt_stub.cpp
 static double g_deadline = 1e18; static bool g_capped = false;
 static const char *g_family = "";
 
@@ -100,8 +104,9 @@ static void run_batch(const std::function<void()> &body) {
     if (pid == 0) {
       if (efd >= 0) dup2(efd, 2);
       alarm(600);
-      g_local_seq = 0; S->in_flight = 0;
+      g_local_seq = 0; S->in_flight = 0; g_c14_log_records = 0;
       body();
+      __sync_fetch_and_add(&S->log_records, g_c14_log_records);
       _exit(0);
     }
     int st = 0; waitpid(pid, &st, 0);
@@ -137,11 +142,15 @@ static std::string show(const std::vector<Msg> &v) { std::string s = "["; for (a
 
 struct Port {
   int kind; std::unique_ptr<Proto> p; std::vector<Msg> got; std::string sent; std::vector<size_t> sent_sizes;
-  explicit Port(int k) : kind(k) {
+  // wiring: bit 0 = request callback set, bit 1 = response callback set (3 = both; 0 = what Rpc::cleanup() leaves behind on a borrowed proto)
+  explicit Port(int k, int wiring = 3) : kind(k) {
     if (k == RAW) p.reset(new RawStreamProto); else if (k == HDR) p.reset(new HeaderStreamProto(kMagic)); else p.reset(new PacketProto);
-    p->setRecvCallback([this](int id, const std::string &m, const Json &params) { got.push_back(Msg{0, id, m, 0, params}); S->callbacks++; },
-                       [this](int id, int ec, const Json &res) { got.push_back(Msg{1, id, "", ec, res}); S->callbacks++; });
+    Proto::RecvRequestCallback rq; Proto::RecvRespondCallback rs;
+    if (wiring & 1) rq = [this](int id, const std::string &m, const Json &params) { got.push_back(Msg{0, id, m, 0, params}); S->callbacks++; };
+    if (wiring & 2) rs = [this](int id, int ec, const Json &res) { got.push_back(Msg{1, id, "", ec, res}); S->callbacks++; };
+    p->setRecvCallback(std::move(rq), std::move(rs));
     p->setSendCallback([this](const void *d, size_t n) { sent.append((const char *)d, n); sent_sizes.push_back(n); });
+    if (g_log) { p->setLogEnable(true); p->setLogLabel("c14-\"%s\\"); }   // (the label is data, not a format)
   }
 };
 // what a message to be sent looks like, and what the receiver must observe for it
@@ -607,7 +616,7 @@ static void fam_envelope() {
   auto big = [](const char *t) { return Json::parse(t); };
   std::vector<Json> ver = {ABSENT, "2.0", "1.0", 2, nullptr};
   std::vector<Json> method = {ABSENT, "m", 1, nullptr, Json::array()};
-  std::vector<Json> id = {ABSENT, 1, "1", 1.5, big("2147483648"), big("9223372036854775808"), big("18446744073709551615"), big("-9223372036854775808"), -1, nullptr, Json::object(), true, big("1e300")};
+  std::vector<Json> id = {ABSENT, 1, "1", 1.5, big("2147483647"), big("2147483648"), big("9223372036854775808"), big("18446744073709551615"), big("-9223372036854775808"), -1, nullptr, Json::object(), true, big("1e300")};
   std::vector<Json> params = {ABSENT, 1, Json::array(), Json::object()};
   std::vector<Json> result = {ABSENT, nullptr, 1};
   Json c1 = Json::object(); c1["code"] = 1; Json c2 = Json::object(); c2["code"] = "x"; Json c3 = Json::object(); c3["code"] = big("4294967296"); Json c4 = Json::object(); c4["code"] = 1.5;
@@ -618,9 +627,12 @@ static void fam_envelope() {
   for (size_t b0 = 0; b0 < total && !expired(); b0 += B) {
     run_batch([&] {
       Port rx[NPROTO] = {Port(RAW), Port(HDR), Port(PKT)};
+      // the same protos with one or both receive callbacks absent (Rpc::cleanup() leaves its borrowed proto with neither, and the transport may go on delivering)
+      Port half[NPROTO][3] = {{Port(RAW, 0), Port(RAW, 1), Port(RAW, 2)}, {Port(HDR, 0), Port(HDR, 1), Port(HDR, 2)}, {Port(PKT, 0), Port(PKT, 1), Port(PKT, 2)}};
       for (size_t i = b0; i < total && i < b0 + B; i++) {
         if ((int)(i % (size_t)g_nparts) != g_part) continue;
         size_t c = i; Json js = Json::object();
+        bool partial_wiring = (i / (ver.size() * method.size())) % id.size() < 3;     // id absent, 1 or "1": every version/method/params/result/error combination
         auto pick = [&](const std::vector<Json> &v, const char *key) { const Json &x = v[c % v.size()]; c /= v.size(); if (!x.is_binary()) js[key] = x; };
         pick(ver, "jsonrpc"); pick(method, "method"); pick(id, "id"); pick(params, "params"); pick(result, "result"); pick(error, "error");
         for (int batch = 0; batch < 2; batch++) for (int k = 0; k < NPROTO; k++) {
@@ -637,6 +649,8 @@ static void fam_envelope() {
             else if (pt.got.size() > maxcb) { bad = true; add_viol(cls + "-more-than-one-callback-per-message", rep + " got=" + show(pt.got)); }
             else for (auto &m : pt.got) {
               if (m.kind == 0 && !(js.contains("method") && js["method"].is_string() && js["method"] == m.method && m.v == (js.contains("params") ? js["params"] : Json()))) { bad = true; add_viol(cls + "-request-callback-does-not-match-message", rep + " got=" + show(pt.got)); break; }
+              // an id that is an integer within int range must reach the callback unchanged (other id shapes: not judged, the statement only asks for no exception)
+              if (js.contains("id") && js["id"].is_number_integer() && js["id"] >= INT_MIN && js["id"] <= INT_MAX && !(js["id"] == m.id)) { bad = true; add_viol(cls + "-callback-id-differs-from-message-id", rep + " got=" + show(pt.got)); break; }
               if (m.kind == 1 && js.contains("method")) { bad = true; add_viol(cls + "-response-callback-for-a-request-message", rep + " got=" + show(pt.got)); break; }
               if (m.kind == 1 && js.contains("result") && !(m.errcode == 0 && m.v == js["result"])) { bad = true; add_viol(cls + "-result-callback-does-not-match-message", rep + " got=" + show(pt.got)); break; }
               if (m.kind == 1 && !js.contains("result") && !(js.contains("error") && m.v.is_null())) { bad = true; add_viol(cls + "-error-callback-does-not-match-message", rep + " got=" + show(pt.got)); break; }
@@ -645,6 +659,16 @@ static void fam_envelope() {
               if (!(js.contains("jsonrpc") && js["jsonrpc"] == "2.0")) { bad = true; add_viol(cls + "-callback-for-wrong-version", rep + " got=" + show(pt.got)); break; }
             }
             if (!bad) add_outcome(fmt("envelope %s callbacks=%zu", PN[k], pt.got.size()));
+            // partially wired protos: no exception, the same return value, and exactly the callbacks of the wired kind
+            if (!bad && partial_wiring) for (int wv = 0; wv < 3; wv++) {
+              Port &hp = half[k][wv]; CallRes hr; std::string hcls = fmt("%s-envelope-%s", PN[k], wv == 0 ? "no-receive-callbacks" : wv == 1 ? "request-callback-only" : "response-callback-only");
+              snprintf(S->cls, sizeof S->cls, "%s", hcls.c_str());
+              if (!hostile_call(hp, hcls, pt.sent, hr)) break;
+              std::vector<Msg> want; for (auto &m : pt.got) if ((m.kind == 0 && (wv & 1)) || (m.kind == 1 && (wv & 2))) want.push_back(m);
+              if (hr.r != cr.r) { add_viol(hcls + "-return-value-differs-from-fully-wired", rep + fmt(" ret=%zd fully-wired ret=%zd", hr.r, cr.r)); break; }
+              if (hp.got.size() != want.size() || !std::equal(want.begin(), want.end(), hp.got.begin())) { add_viol(hcls + "-callbacks-differ-from-fully-wired", rep + " got=" + show(hp.got) + " want=" + show(want)); break; }
+              add_outcome(fmt("envelope %s %s callbacks=%zu", PN[k], wv == 0 ? "unwired" : wv == 1 ? "request-callback-only" : "response-callback-only", hp.got.size()));
+            }
           }
           if (i % 4001 == 11 && k == 0 && !batch) add_sample(rep + " => " + show(pt.got));
           end_case();
@@ -657,28 +681,124 @@ static void fam_envelope() {
 // valid but hostile: very deep array nesting (a "batch of batches")
 static void fam_deep() {
   std::vector<long> depths = {100, 1000, 10000, 30000, 50000, 100000, 1000000};
-  printf("@INFO deep: arrays nested %ld..%ld deep through 3 protos (one forked child each)\n", depths.front(), depths.back());
+  printf("@INFO deep: arrays nested %ld..%ld deep through 3 protos (one forked child each), well-formed and with a mismatched innermost closer\n", depths.front(), depths.back());
   long n = 0;
-  for (long d : depths) for (int k = 0; k < NPROTO; k++) {
+  for (long d : depths) for (int k = 0; k < NPROTO; k++) for (int broken = 0; broken < 2; broken++) {
     if ((int)(n++ % g_nparts) != g_part) continue;
     run_batch([&] {
       if (!next_case()) return;
-      std::string text = std::string((size_t)d, '[') + std::string((size_t)d, ']');
+      // broken: the innermost closer is '}' - every bracket still balances for a counter that ignores the kind, the text is not JSON
+      std::string text = std::string((size_t)d, '[') + (broken ? "}" : "]") + std::string((size_t)d - 1, ']');
       std::string buf = k == HDR ? hdr_bytes(kMagic, (uint32_t)text.size()) + text : text;
-      std::string cls = fmt("%s-deeply-nested-array", PN[k]); std::string rep = fmt("proto=%s bytes=%s'['x%ld + ']'x%ld", PN[k], k == HDR ? "header+" : "", d, d);
+      std::string cls = fmt("%s-deeply-nested-array%s", PN[k], broken ? "-mismatched-closer" : ""); std::string rep = fmt("proto=%s bytes=%s'['x%ld + '%s' + ']'x%ld", PN[k], k == HDR ? "header+" : "", d, broken ? "}" : "]", d - 1);
       set_case(cls, rep); S->states++;
       Port rx(k); CallRes c;
       rx.got.clear(); S->executions++;
       c = call(*rx.p, buf.data(), buf.size());
-      if (c.threw) add_viol(cls + "-throws", rep + " what=" + c.what);
-      else add_outcome(fmt("deep %s depth=%ld ret%s", PN[k], d, c.r > 0 ? ">0" : c.r == 0 ? "=0" : "<0"));
+      bool acc = ref_accept(text);
+      if (acc == (bool)broken) add_viol("harness-deep-reference-parser-disagrees", rep);
+      else if (c.threw) add_viol(cls + "-throws", rep + " what=" + c.what);
+      else if (!broken && c.r != (ssize_t)buf.size()) add_viol(cls + "-valid-json-not-consumed", rep + fmt(" ret=%zd size=%zu", c.r, buf.size()));
+      else if (broken && c.r > 0) add_viol(cls + "-invalid-json-consumed", rep + fmt(" ret=%zd", c.r));
+      else if (!rx.got.empty()) add_viol(cls + "-callback-for-non-jsonrpc-text", rep + " got=" + show(rx.got));
+      else add_outcome(fmt("deep %s depth=%ld %s ret%s", PN[k], d, broken ? "mismatched-closer" : "well-formed", c.r > 0 ? "=size" : c.r == 0 ? "=0" : "<0"));
+      end_case();
+    });
+  }
+}
+
+// ------------------------------------------------------------------------------------------------
+// family: boundary sizes and boundary ids. Every other family keeps its frames under 256 bytes and its ids under 8, so on an
+// accepted frame only the lowest byte of the header's length field is ever non-zero and ids never leave one byte.
+//  (a) ids {1,127,128,255,256,32767,32768,65535,65536,2^31-1,-1,-128,-129,-32768,-32769,-2^31} x {request, result, error} x 3 protos through the proto's own sender;
+//  (b) string values whose ENCODED frame content is exactly {255,256,257,65535,65536,65537,70000 (+2^24 at level 1)} bytes, ending in
+//      'a' / an escaped quote / an escaped backslash, as request params and as response result, x 3 protos: round trip equal;
+//      followed by a second (small) frame: two messages, everything consumed;
+//      stream framings: 2-segment splits at every boundary-ish cut and fixed chunk sizes {255,256,4096} (+1 for frames <= 300 bytes).
+static std::string big_desc(int proto, const char *what, size_t content, const char *tail) { return fmt("proto=%s %s frame_content_bytes=%zu string_tail=%s", PN[proto], what, content, tail); }
+static void fam_big() {
+  std::vector<int> ids = {1, 127, 128, 255, 256, 32767, 32768, 65535, 65536, INT_MAX, -1, -128, -129, -32768, -32769, INT_MIN};
+  std::vector<size_t> targets = {255, 256, 257, 65535, 65536, 65537, 70000}; if (g_level) targets.push_back((size_t)1 << 24);
+  static const char *TAILN[3] = {"plain", "escaped-quote", "escaped-backslash"}; static const char *TAIL[3] = {"a", "\"", "\\"};
+  printf("@INFO big: %zu ids x {request,result,error} x 3 protos; frame content sizes {", ids.size()); for (size_t t : targets) printf("%zu,", t);
+  printf("} x 3 string tails x {request,result} x 3 protos: round trip, + second frame, 2-segment splits at boundary cuts, chunk sizes {1 (<=300 bytes),255,256,4096}, part %d/%d\n", g_part, g_nparts);
+  long n = 0;
+  // (a) ids
+  if ((int)(n++ % g_nparts) == g_part) run_batch([&] {
+    for (int id : ids) for (int kind = 0; kind < 3; kind++) for (int k = 0; k < NPROTO; k++) {
+      if (!next_case()) continue;
+      Spec sp{kind, id, kind == 2 ? Json() : Json::array({id}), id}; Port pt(k);     // (the error code takes the same boundary value)
+      std::string rep = fmt("proto=%s %s id=%d", PN[k], kind == 0 ? "sendRequest" : kind == 1 ? "sendResult" : "sendError(code=id)", id);
+      set_case(fmt("%s-boundary-id", PN[k]), rep); S->states++; S->executions++;
+      std::string why; if (!send_spec(pt, sp, why)) { add_viol(fmt("%s-encoder-throws", PN[k]), rep + " what=" + why); end_case(); continue; }
+      Feed f = feed_whole(pt, pt.sent); Msg want = expect_of(sp); rep += " bytes=\"" + esc(pt.sent) + "\"";
+      if (f.threw) add_viol(fmt("%s-boundary-id-throws", PN[k]), rep + " what=" + f.what);
+      else if (f.err || f.overrun || f.leftover || f.msgs.size() != 1) add_viol(fmt("%s-boundary-id-own-encoding-not-decoded", PN[k]), rep + fmt(" ret=%zd leftover=%zu got=", f.err, f.leftover) + show(f.msgs));
+      else if (!(f.msgs[0] == want)) add_viol(fmt("%s-boundary-id-decoded-differently", PN[k]), rep + " got=" + show(f.msgs) + " want=" + show(want));
+      else add_outcome(fmt("big id %s %s ok", PN[k], kind == 0 ? "request" : kind == 1 ? "result" : "error"));
+      end_case();
+    }
+  });
+  // (b) sizes
+  for (size_t target : targets) for (int tail = 0; tail < 3; tail++) for (int env = 0; env < 2; env++) for (int k = 0; k < NPROTO; k++) {
+    if (target > 100000 && tail != 0) continue;                       // the 2^24 frame: plain tail only
+    if ((int)(n++ % g_nparts) != g_part) continue;
+    if (expired()) return;
+    run_batch([&] {
+      if (!next_case()) return;
+      const char *what = env ? "sendResult(7,<string>)" : "sendRequest(7,\"m\",<string>)";
+      std::string rep = big_desc(k, what, target, TAILN[tail]); std::string cls = fmt("%s-big-frame", PN[k]);
+      set_case(cls, rep); S->states++; S->executions++;
+      // size the string so that the encoded content is exactly `target` bytes: encode once with an empty body to learn the overhead
+      Port tx(k); std::string why; size_t hdr = k == HDR ? 6 : 0;
+      Spec probe{env, 7, std::string(TAIL[tail]), 0}; if (!send_spec(tx, probe, why)) { add_viol(fmt("%s-encoder-throws", PN[k]), rep + " what=" + why); end_case(); return; }
+      size_t overhead = tx.sent.size() - hdr - 0; if (overhead > target) { end_case(); return; }
+      std::string val = std::string(target - overhead, 'a') + TAIL[tail];
+      Spec sp{env, 7, val, 0}; tx.sent.clear(); tx.sent_sizes.clear();
+      if (!send_spec(tx, sp, why)) { add_viol(fmt("%s-encoder-throws", PN[k]), rep + " what=" + why); end_case(); return; }
+      std::string frame = tx.sent; Msg want = expect_of(sp);
+      if (frame.size() - hdr != target) { add_viol("harness-big-frame-size-miscomputed", rep + fmt(" got=%zu", frame.size() - hdr)); end_case(); return; }
+      auto brief = [&](const Feed &f) { std::string o = fmt(" ret=%zd leftover=%zu threw=%d messages=%zu", f.err, f.leftover, (int)f.threw, f.msgs.size());
+        if (!f.msgs.empty() && f.msgs[0].v.is_string()) o += fmt(" first_string_len=%zu", f.msgs[0].v.get_ref<const std::string &>().size()); return o; };
+      auto same = [&](const Feed &f, const std::vector<Msg> &w) { return !f.threw && !f.overrun && !f.err && !f.leftover && f.msgs.size() == w.size() && std::equal(w.begin(), w.end(), f.msgs.begin()); };
+      Port rx(k); bool ok = true;
+      // round trip, alone
+      { Feed f = feed_whole(rx, frame);
+        if (f.threw) { ok = false; add_viol(cls + "-roundtrip-throws", rep + " what=" + f.what); }
+        else if (!same(f, {want})) { ok = false; add_viol(cls + (f.msgs.empty() ? "-roundtrip-never-completes" : "-roundtrip-value-differs"), rep + brief(f)); } }
+      // followed by a small frame (the consumed count of the big one must be exact)
+      std::vector<Msg> want2 = {want};
+      std::string stream = frame;
+      if (ok) { Port t2(k); Spec small = pool()[1]; send_spec(t2, small, why); want2.push_back(expect_of(small));
+        if (k == PKT) { CallRes c1 = call(*rx.p, frame.data(), frame.size()); rx.got.clear(); CallRes c2 = call(*rx.p, t2.sent.data(), t2.sent.size());
+          S->executions++;
+          if (c1.threw || c2.threw || c1.r != (ssize_t)frame.size() || c2.r != (ssize_t)t2.sent.size() || rx.got.size() != 1 || !(rx.got[0] == want2[1])) { ok = false; add_viol(cls + "-packet-after-big-packet-decoded-differently", rep + fmt(" ret1=%zd ret2=%zd", c1.r, c2.r)); } }
+        else { stream += t2.sent; S->executions++; Feed f = feed_whole(rx, stream);
+          if (!same(f, want2)) { ok = false; add_viol(cls + "-followed-by-a-frame-decodes-to-a-different-sequence", rep + brief(f) + (f.threw ? " what=" + f.what : "")); } } }
+      // segmentation (stream framings)
+      if (ok && k != PKT) {
+        size_t L = stream.size(), F = frame.size(); std::set<size_t> cuts;
+        for (size_t c : {(size_t)1, (size_t)2, (size_t)5, (size_t)6, (size_t)7, (size_t)8, (size_t)254, (size_t)255, (size_t)256, (size_t)257, (size_t)261, (size_t)262, (size_t)263,
+                         (size_t)65535, (size_t)65536, (size_t)65537, (size_t)65541, (size_t)65542, (size_t)65543, F - 2, F - 1, F, F + 1, F + 5, F + 6, F + 7, L - 1}) if (c >= 1 && c < L) cuts.insert(c);
+        for (size_t c : cuts) { size_t e[2] = {c, L}; S->executions++; S->cut[0] = (long)c; S->cut[1] = (long)L;
+          Feed f = feed(rx, stream, e, 2);
+          if (!same(f, want2)) { ok = false; add_viol(cls + (f.threw ? "-segmented-throws" : "-segmented-decodes-differently-from-unsegmented"), rep + fmt(" + small frame, seg_ends=[%zu,%zu]", c, L) + brief(f) + (f.threw ? " what=" + f.what : "")); break; } }
+        std::vector<size_t> chunks = {255, 256, 4096}; if (L <= 400) chunks.push_back(1);
+        if (k == RAW && target > 100000) chunks = {65536};           // (the raw framing rescans the buffer on every call: keep the 2^24 case linear enough)
+        for (size_t c : chunks) { if (!ok) break; std::vector<size_t> ends; for (size_t q = c; q < L; q += c) ends.push_back(q); ends.push_back(L);
+          S->executions++; for (int i = 0; i < 4; i++) S->cut[i] = -1; S->cut[0] = -(long)c - 1;
+          Feed f = feed(rx, stream, ends.data(), (int)ends.size());
+          if (!same(f, want2)) { ok = false; add_viol(cls + (f.threw ? "-segmented-throws" : "-segmented-decodes-differently-from-unsegmented"), rep + fmt(" + small frame, segments=every-%zu-bytes", c) + brief(f) + (f.threw ? " what=" + f.what : "")); } }
+      }
+      if (ok) add_outcome(fmt("big %s content=%zu: round trip, second frame%s ok", PN[k], target, k != PKT ? ", boundary splits, chunkings" : ""));
+      if (ok && tail == 1 && env == 0) add_sample(rep + " => 1 equal message; + small frame => 2 messages under every boundary split / chunk size");
       end_case();
     });
   }
 }
 
 int main(int argc, char **argv) {
-  g_family = argc > 1 ? argv[1] : "roundtrip"; g_part = argc > 2 ? atoi(argv[2]) : 0; g_nparts = argc > 3 ? atoi(argv[3]) : 1; g_level = argc > 4 ? atoi(argv[4]) : 0; g_maxseg = argc > 5 ? atoi(argv[5]) : 0;
+  g_family = argc > 1 ? argv[1] : "roundtrip"; g_part = argc > 2 ? atoi(argv[2]) : 0; g_nparts = argc > 3 ? atoi(argv[3]) : 1; g_level = argc > 4 ? atoi(argv[4]) : 0; g_maxseg = argc > 5 ? atoi(argv[5]) : 0; g_log = argc > 6 ? atoi(argv[6]) : 0;
   const char *e = getenv("VERIF_DEADLINE_S"); g_deadline = real_now() + (e ? atof(e) : 600);
   S = (Shared *)mmap(nullptr, sizeof(Shared), PROT_READ | PROT_WRITE, MAP_SHARED | MAP_ANONYMOUS, -1, 0);
   if (S == MAP_FAILED) { perror("mmap"); return 3; }
@@ -687,13 +807,13 @@ int main(int argc, char **argv) {
   std::string f = g_family;
   if (f == "roundtrip") fam_roundtrip(); else if (f == "segment") fam_segment(); else if (f == "packet") fam_packet();
   else if (f == "len") fam_len(); else if (f == "magic") fam_magic(); else if (f == "trunc") fam_trunc();
-  else if (f == "bytes") fam_bytes(); else if (f == "mixed") fam_mixed(); else if (f == "envelope") fam_envelope(); else if (f == "deep") fam_deep();
+  else if (f == "bytes") fam_bytes(); else if (f == "mixed") fam_mixed(); else if (f == "envelope") fam_envelope(); else if (f == "deep") fam_deep(); else if (f == "big") fam_big();
   else { printf("@VIOL sig=harness-unknown-family :: %s\n", f.c_str()); return 0; }
   for (int i = 0; i < S->nsig; i++) for (int j = 0; j < 3 && j < S->sigs[i].n; j++) printf("@VIOL sig=%s :: %s  [%ld occurrence(s) of this signature in %s part %d]\n", S->sigs[i].sig, S->sigs[i].ex[j], S->sigs[i].n, g_family, g_part);
   for (int i = 0; i < S->nout; i++) printf("@OUTCOME %s\n", S->outs[i]);
   for (int i = 0; i < S->nsample; i++) printf("@SAMPLE %s\n", S->samples[i]);
   if (g_capped) printf("@CAP %s part %d/%d: deadline reached after %ld inputs / %ld executions\n", g_family, g_part, g_nparts, S->states, S->executions);
-  printf("@STAT states=%ld transitions=%ld executions=%ld onrecv_calls=%ld callbacks=%ld violations=%ld hostile_status_diffs=%ld\n", S->states, S->executions, S->executions, S->calls, S->callbacks, S->viols, S->status_diffs);
+  printf("@STAT states=%ld transitions=%ld executions=%ld onrecv_calls=%ld callbacks=%ld violations=%ld hostile_status_diffs=%ld log_records_formatted=%ld\n", S->states, S->executions, S->executions, S->calls, S->callbacks, S->viols, S->status_diffs, S->log_records);
   fflush(stdout);
   return 0;
 }
